@@ -1,121 +1,41 @@
-// ---- lemmas of codec_core: facts about the wire-format SPECIFICATION only (no executable code is mentioned) -----------
+// ---- labelled lemmas of codec_core: properties of the wire-format SPECIFICATION (no executable code is mentioned) ------
+// Together with [C13.enc.<T>] (encoder == enc_T) and [C13.rt/prefix.<T>] (decoder inverts enc_T) they give agreement:
+// the encodings are injective / prefix-free, so no two different valid values share a frame.
 
 // label: C13.code.IdKind.inj
-pub proof fn lemma_idkind_code_injective()
+pub proof fn c13_code_idkind_injective()
     ensures forall|a: IdKind, b: IdKind| idkind_code(a) == idkind_code(b) ==> a == b,
-{}
+{ lemma_idkind_code_injective(); }
 // label: C13.code.ConsumerKind.inj
-pub proof fn lemma_consumerkind_code_injective()
+pub proof fn c13_code_consumerkind_injective()
     ensures forall|a: ConsumerKind, b: ConsumerKind| consumerkind_code(a) == consumerkind_code(b) ==> a == b,
-{}
+{ lemma_consumerkind_code_injective(); }
 // label: C13.code.PartitioningKind.inj
-pub proof fn lemma_partitioningkind_code_injective()
+pub proof fn c13_code_partitioningkind_injective()
     ensures forall|a: PartitioningKind, b: PartitioningKind| partitioningkind_code(a) == partitioningkind_code(b) ==> a == b,
-{}
+{ lemma_partitioningkind_code_injective(); }
 // label: C13.code.PollingKind.inj
-pub proof fn lemma_pollingkind_code_injective()
+pub proof fn c13_code_pollingkind_injective()
     ensures forall|a: PollingKind, b: PollingKind| pollingkind_code(a) == pollingkind_code(b) ==> a == b,
-{}
-
-// where the fields of an identifier sit in any buffer that starts with its encoding
-pub proof fn lemma_identifier_layout(v: Identifier, rest: Seq<u8>)
-    ensures
-        ({
-            let b = enc_identifier(v) + rest;
-            &&& enc_identifier(v).len() == 2 + v.value@.len()
-            &&& b.len() == 2 + v.value@.len() + rest.len()
-            &&& b[0] == idkind_code(v.kind)
-            &&& b[1] == v.length
-            &&& b.subrange(2, 2 + v.value@.len() as int) == v.value@
-            &&& b.subrange(2 + v.value@.len() as int, b.len() as int) == rest
-        }),
-{
-    let b = enc_identifier(v) + rest;
-    assert(b.subrange(2, 2 + v.value@.len() as int) =~= v.value@);
-    assert(b.subrange(2 + v.value@.len() as int, b.len() as int) =~= rest);
-}
+{ lemma_pollingkind_code_injective(); }
 
 // label: C13.inj.Identifier
-// the encoding is injective on valid identifiers, even when followed by arbitrary bytes (prefix-freeness): two valid
-// identifiers whose encodings start the same buffer are equal
-pub proof fn lemma_identifier_prefix_free(a: Identifier, ra: Seq<u8>, b: Identifier, rb: Seq<u8>)
+pub proof fn c13_inj_identifier(a: Identifier, ra: Seq<u8>, b: Identifier, rb: Seq<u8>)
     requires id_valid(a), id_valid(b), enc_identifier(a) + ra == enc_identifier(b) + rb,
     ensures id_eq(a, b), ra == rb,
-{
-    lemma_identifier_layout(a, ra);
-    lemma_identifier_layout(b, rb);
-    lemma_idkind_code_injective();
-}
-
-pub proof fn lemma_consumer_layout(v: Consumer, rest: Seq<u8>)
-    ensures
-        ({
-            let b = enc_consumer(v) + rest;
-            &&& enc_consumer(v).len() == 3 + v.id.value@.len()
-            &&& b.len() == 3 + v.id.value@.len() + rest.len()
-            &&& b[0] == consumerkind_code(v.kind)
-            &&& b.subrange(1, b.len() as int) == enc_identifier(v.id) + rest
-        }),
-{
-    let b = enc_consumer(v) + rest;
-    assert(b.subrange(1, b.len() as int) =~= enc_identifier(v.id) + rest);
-}
-
-pub proof fn lemma_partitioning_layout(v: Partitioning, rest: Seq<u8>)
-    ensures
-        ({
-            let b = enc_partitioning(v) + rest;
-            &&& enc_partitioning(v).len() == 2 + v.value@.len()
-            &&& b.len() == 2 + v.value@.len() + rest.len()
-            &&& b[0] == partitioningkind_code(v.kind)
-            &&& b[1] == v.length
-            &&& b.subrange(2, 2 + v.value@.len() as int) == v.value@
-            &&& b.subrange(2 + v.value@.len() as int, b.len() as int) == rest
-        }),
-{
-    let b = enc_partitioning(v) + rest;
-    assert(b.subrange(2, 2 + v.value@.len() as int) =~= v.value@);
-    assert(b.subrange(2 + v.value@.len() as int, b.len() as int) =~= rest);
-}
-
-pub proof fn lemma_strategy_layout(v: PollingStrategy)
-    ensures
-        enc_strategy(v).len() == 9,
-        enc_strategy(v)[0] == pollingkind_code(v.kind),
-        enc_strategy(v).subrange(1, 9) == le64(v.value),
-{
-    lemma_le_facts();
-    assert(enc_strategy(v).subrange(1, 9) =~= le64(v.value));
-}
-
+{ lemma_identifier_prefix_free(a, ra, b, rb); }
 // label: C13.inj.Consumer
-pub proof fn lemma_consumer_prefix_free(a: Consumer, ra: Seq<u8>, b: Consumer, rb: Seq<u8>)
+pub proof fn c13_inj_consumer(a: Consumer, ra: Seq<u8>, b: Consumer, rb: Seq<u8>)
     requires consumer_valid(a), consumer_valid(b), enc_consumer(a) + ra == enc_consumer(b) + rb,
     ensures consumer_eq(a, b), ra == rb,
-{
-    lemma_consumer_layout(a, ra);
-    lemma_consumer_layout(b, rb);
-    lemma_consumerkind_code_injective();
-    lemma_identifier_prefix_free(a.id, ra, b.id, rb);
-}
-
+{ lemma_consumer_prefix_free(a, ra, b, rb); }
 // label: C13.inj.Partitioning
-pub proof fn lemma_partitioning_prefix_free(a: Partitioning, ra: Seq<u8>, b: Partitioning, rb: Seq<u8>)
+pub proof fn c13_inj_partitioning(a: Partitioning, ra: Seq<u8>, b: Partitioning, rb: Seq<u8>)
     requires part_valid(a), part_valid(b), enc_partitioning(a) + ra == enc_partitioning(b) + rb,
     ensures part_eq(a, b), ra == rb,
-{
-    lemma_partitioning_layout(a, ra);
-    lemma_partitioning_layout(b, rb);
-    lemma_partitioningkind_code_injective();
-}
-
+{ lemma_partitioning_prefix_free(a, ra, b, rb); }
 // label: C13.inj.PollingStrategy
-pub proof fn lemma_strategy_injective(a: PollingStrategy, b: PollingStrategy)
+pub proof fn c13_inj_strategy(a: PollingStrategy, b: PollingStrategy)
     requires enc_strategy(a) == enc_strategy(b),
     ensures a == b,
-{
-    lemma_strategy_layout(a);
-    lemma_strategy_layout(b);
-    lemma_pollingkind_code_injective();
-    lemma_le_facts();
-}
+{ lemma_strategy_injective(a, b); }
